@@ -339,6 +339,9 @@ class Program:
         if sig is not None:
             c = [f for f in c if sig(f)]
         if len(c) == 1:
+            r_ = getattr(self, "_run", None)
+            if r_ is not None:
+                r_.analysed(c[0])       # (whatever a rule looks up by name is part of what it analysed)
             return c[0]
         if not c:
             if required:
@@ -351,6 +354,10 @@ class Program:
         return None
 
     def fns(self, qn):
+        r_ = getattr(self, "_run", None)
+        if r_ is not None:
+            for f_ in self.by_qn.get(qn, []):
+                r_.analysed(f_)
         return list(self.by_qn.get(qn, []))
 
     def methods_of(self, cls):
